@@ -327,6 +327,7 @@ func runExtract(src []byte, minz, maxz int8, bbox string, cfg extractCfg) ([]byt
 	defer os.Remove(path)
 	out := scratchFile(".out.pmtiles")
 	defer os.Remove(out)
+	staleOutput(out)
 	var recs []recordedRange
 	key := path
 	if cfg.http {
